@@ -116,8 +116,13 @@ def lazify_task(task, start=True):
             subgraph, outkey, inkeys, *dependencies = task.args
             # If there is a reify at the output of the subgraph we don't want to act
             final_task = lazify_task(subgraph[outkey], True)
+            # A node that is referenced more than once (``b.map(f, b)``) must
+            # stay concrete: a lazy iterator can only be consumed once
+            refs = _count_references(subgraph.values())
             subgraph = {
-                k: lazify_task(v, False) for k, v in subgraph.items() if k != outkey
+                k: lazify_task(v, refs.get(k, 0) > 1)
+                for k, v in subgraph.items()
+                if k != outkey
             }
             subgraph[outkey] = final_task
             return Task(
@@ -146,6 +151,27 @@ def lazify_task(task, start=True):
             return lazify_task(*tail, start=False)
         else:
             return (head,) + tuple(lazify_task(arg, False) for arg in tail)
+
+
+def _count_references(nodes):
+    """How often each key is referenced by ``nodes`` (with multiplicity)"""
+    counts: dict = defaultdict(int)
+    stack = list(nodes)
+    while stack:
+        o = stack.pop()
+        if isinstance(o, TaskRef):
+            counts[o.key] += 1
+        elif isinstance(o, Task):
+            stack.extend(o.args)
+            stack.extend(o.kwargs.values())
+        elif isinstance(o, GraphNode):
+            for dep in o.dependencies:
+                counts[dep] += 1
+        elif isinstance(o, (list, tuple)):
+            stack.extend(o)
+        elif isinstance(o, dict):
+            stack.extend(o.values())
+    return counts
 
 
 def lazify(dsk):
